@@ -202,6 +202,11 @@ func genScenario(cfg ScenarioCfg) *rapid.Generator[Scenario] {
 		}
 		if cfg.ModularStart && rapid.IntRange(0, 5).Draw(t, "modular start") == 0 {
 			sc.Ctor, sc.Start = "spawn", mg.Draw(t, "modular start genome")
+			// every crossover of modular genomes hands the modules of both parents to the child (outside the domain of C01/C04,
+			// an observation of DESIGN 5.2): the number of module copies doubles per generation, so these histories stay short
+			if sc.Epochs > 6 {
+				sc.Epochs = 1 + sc.Epochs%6
+			}
 		}
 		if cfg.Warm && rapid.IntRange(0, 3).Draw(t, "warm objects") == 0 {
 			w := &WarmSpec{OtherPop: rapid.IntRange(4, 40).Draw(t, "other pop size")}
